@@ -129,7 +129,7 @@ func check(ctx *pbt.Ctx, c Case) error {
 
 func TestSigOps(t *testing.T) {
 	pbt.Run(t, pbt.Sub[Case]{
-		Name: "sigops", Quick: 36000, Thorough: 900000,
+		Name: "sigops", Quick: 120000, Thorough: 2400000,
 		Gen: func(t *rapid.T) Case {
 			p := sgen.SigScripts(t)
 			return Case{Unlock: p.Unlock, Lock: p.Lock, Flags: uint32(p.Flags), Tx: p.Tx, Idx: p.Idx, Amount: p.Amount, Desc: p.Desc}
